@@ -264,10 +264,11 @@ def rustc(src_path, deps, rlib):
     return p.returncode == 0, errs
 
 
-def enumerate_programs(outdir):
+def enumerate_programs(outdir, thorough=False):
     """run TLC on Typestate.tla in both modes; -> (programs, table rows, tlc stats)"""
     progs, table, stats = {}, {}, dict(states=0, transitions=0)
-    for cfg in ("Typestate_full.cfg", "Typestate_abs.cfg"):
+    cfgs = ("Typestate_full3.cfg", "Typestate_abs.cfg") if thorough else ("Typestate_full.cfg", "Typestate_abs.cfg")
+    for cfg in cfgs:
         rc, out = vlib.run_tlc("Typestate.tla", os.path.join(vlib.SPEC, cfg), outdir, "ts-" + cfg[10:-4], workers=1,
                                xmx="2g", timeout=600)
         txt = open(out, errors="replace").read()
@@ -288,10 +289,10 @@ def enumerate_programs(outdir):
     return list(progs.values()), list(table.values()), stats
 
 
-def run(outdir):
+def run(outdir, thorough=False):
     """-> dict(results=[...], stats)   result: dict(kind, prog/row, expect, verdict, ok, errs, src)"""
     os.makedirs(outdir, exist_ok=True)
-    progs, table, stats = enumerate_programs(outdir)
+    progs, table, stats = enumerate_programs(outdir, thorough)
     deps, rlib = find_rlibs()
     jobs = []
     for i, p in enumerate(progs):
